@@ -156,6 +156,14 @@ def _c03_one_draw():
 
 
 C03_UNITS = _c03_one_draw() + [
+    plain("c03_exp_sample_f64", "c03", ["C03"], "Exp::sample", "src/exponential.rs", [("lambda", "f64"), ("words", "words4")],
+          "lambda = +0: +inf (documented); lambda in [1e-100, 1e100]: finite, >= 0; never NaN; all words (known Exp1 tail witness excluded)",
+          kind="bounded", tier="quick", bound="one iteration of the ziggurat loop (unwind 1, no unwinding assertion)", timeout=3600, extra=["--no-unwinding-checks"],
+          stubs=["exp", "log"], replay={"kind": "sampler", "id": "exp", "float": "f64"}),
+    plain("c03_normal_sample_f64", "c03", ["C03"], "Normal::sample", "src/normal.rs", [("mean", "f64"), ("std_dev", "f64"), ("words", "words4")],
+          "|mean|, |std_dev| <= 1e100 (either sign): finite for all words",
+          kind="bounded", tier="quick", bound="one iteration of the ziggurat loop; the normal tail loop is cut (rectangle and wedge returns only)", timeout=3600, extra=["--no-unwinding-checks"],
+          stubs=["exp", "log"], replay={"kind": "sampler", "id": "normal", "float": "f64"}),
     plain("c03_zipf_step_f64", "c03", ["C03"], "Zipf::sample (one iteration)", "src/zipf.rs", [("n", "f64"), ("s", "f64"), ("words", "words2")],
           "all (n, s) in E, all words: a returned rank is never < 1; debug assertions hold. Upper bound x <= n and NaN-freedom not claimed (need accuracy of powf)",
           kind="bounded", tier="thorough", bound="one iteration of the rejection loop (unwind 1, no unwinding assertion); every iteration starts from the same state", timeout=3600, extra=["--no-unwinding-checks"],
@@ -273,8 +281,16 @@ for _t, _ty, _field, _expr in (("weibull", "Weibull", "inv_shape", "1/shape"), (
                                  stubs=["pow"] + (["log"] if _t == "weibull" else []), replay={"kind": "sampler", "id": "%s_scale" % _t, "float": "f32"}))
 
 
+COMPOSITE_UNITS = []
+for _n, _ty, _file, _args, _obl in [('lognormal', 'LogNormal', 'src/normal.rs', [('mu', 'f64'), ('sigma', 'f64')], '!NaN && x >= 0'), ('skew_normal', 'SkewNormal', 'src/skew_normal.rs', [('location', 'f64'), ('scale', 'f64'), ('shape', 'f64')], '!NaN'), ('gamma', 'Gamma', 'src/gamma.rs', [('shape', 'f64'), ('scale', 'f64')], '!NaN && x >= 0'), ('chi_squared', 'ChiSquared', 'src/chi_squared.rs', [('k', 'f64')], '!NaN && x >= 0'), ('beta', 'Beta', 'src/beta.rs', [('alpha', 'f64'), ('beta', 'f64')], '!NaN && 0 <= x <= 1'), ('poisson', 'Poisson', 'src/poisson.rs', [('lambda', 'f64')], '!NaN && x >= 0 (only the Knuth branch, lambda < 12, returns within one iteration)'), ('pert', 'Pert', 'src/pert.rs', [('min', 'f64'), ('max', 'f64'), ('mode', 'f64')], '!NaN && x >= min')]:
+    COMPOSITE_UNITS.append(plain("c03_%s_sample_f64" % _n, "c03", ["C03"], "%s::sample" % _ty, _file, _args + [("words", "words8")],
+        "parameters in E, all words: " + _obl, kind="bounded", tier="quick" if _n == "lognormal" else "thorough", timeout=3600, extra=["--no-unwinding-checks"],
+        bound="one iteration of every loop on the path (rejection loop and the ziggurat loop inside it): unwind 1, no unwinding assertion",
+        stubs=["exp", "log", "pow", "sqrt_c", "floor"]))
+
+
 def all_units():
-    return c04_units() + C04_EXTRA + C03_UNITS + C06_UNITS + C07_UNITS + C07_CHILD_UNITS + WEIGHT_UNITS + C11_UNITS + HYPER_UNITS
+    return c04_units() + C04_EXTRA + C03_UNITS + COMPOSITE_UNITS + C06_UNITS + C07_UNITS + C07_CHILD_UNITS + WEIGHT_UNITS + C11_UNITS + HYPER_UNITS
 
 
 # ------------------------------------------------------------------ native replay dispatcher (generated Rust)
@@ -326,6 +342,9 @@ def gen_replay_ctor():
 
 # ------------------------------------------------------------------ concrete native units (single inputs that close a stated gap)
 NATIVE_UNITS = [
+    {"id": "kf_inverse_gaussian_negative", "property": ["C03"], "expect": "refuted", "bin": "igsearch", "args": ["ig", "200000", "2"]},
+    {"id": "kf_student_t_nan", "property": ["C03"], "expect": "refuted", "bin": "igsearch", "args": ["t", "40", "2"]},
+    {"id": "kf_fisher_f_nan", "property": ["C03"], "expect": "refuted", "bin": "igsearch", "args": ["f", "40", "2"]},
     {"id": "native_hypergeometric_new_N0", "property": ["C04"], "args": ["ctor", "hypergeometric_new", "-", "u64:0", "u64:0", "u64:0"],
      "what": "Hypergeometric::new(0, 0, 0) returns without panicking and satisfies its contract (closes the `requires N >= 1` of the Verus VF-mode unit)"},
 ]
